@@ -414,6 +414,11 @@ func (c *Cookie) ParseBytes(src []byte) error {
 					if err != nil {
 						return err
 					}
+					if maxAge == 0 {
+						// 'max-age=0' means "delete the cookie now", which Cookie
+						// represents as maxAge<0; maxAge=0 means "no max-age".
+						maxAge = -1
+					}
 					c.maxAge = maxAge
 				}
 
